@@ -29,6 +29,9 @@ ERRS = [
     ("undefined-data-continued", ".dw 1,\n  2,\n  undefined_sym_zq", None, "node"),
     ("undefined-db-continued", ".db 1, 2,\n undefined_sym_zq, 4", None, "node"),
     ("undefined-pointer-continued", ".pointer 0x018000,\nundefined_sym_zq", None, "node"),
+    # an error raised by code generation with the directive's own token as location (no table in scope; where a table is
+    # in scope the statement is valid and nothing is reported)
+    ("text-without-table", ".text 'hello zq'", None, "node"),
 ]
 
 
